@@ -30,9 +30,17 @@ def run(ctx):
     trw = ctx.path("c06w.ndjson")
     ctx.run_mvh(["wlink", "-aux", "c06", "-out", trw, "-seed", ctx.seed, "-tier", ctx.tier])
     wrecs, frames = _writer.validate_links(ctx, trw, defs, clause_filter=lambda c: c in WRITER)
+    # node links with an outgoing key (application messages, heartbeats, stream requests on three channels)
+    import random
+    import scenarios
+    from checks import _node
+    scs = [sc for sc in scenarios.fam_links(random.Random(ctx.seed), ctx.thorough()) if sc["name"] == "links/v2_keyed"]
+    runs = _node.play(ctx, scs)
+    st = _node.validate(ctx, runs, defs, ["C06."])
+    ctx.cov["node_keyed_link_events"] = st["events"]
     ctx.sample(recs[0])
     ctx.sample({"cfg": wrecs[0]["cfg"], "impl": wrecs[0]["impl"], "first_write": wrecs[0]["writes"][0]})
-    ctx.cov["traces_validated_against_impl"] = len(recs) + len(wrecs)
+    ctx.cov["traces_validated_against_impl"] = len(recs) + len(wrecs) + st["scenarios"]
     ctx.cov["evaluations"] = len(recs) + frames
     ctx.cov["reader_streams_by_tag"] = tags
     ctx.cov["signed_frames_written_and_verified"] = frames
@@ -40,7 +48,7 @@ def run(ctx):
     ctx.cov["rule"] = ("reader: TLC-signed frames (3 keys x payload lengths 0,1,45,46,255) read by a real keyed reader untouched, with "
                        "every single bit flipped (long payloads: header/checksum/signature-block bits all, payload bits sampled), flag "
                        "cleared, unsigned, as v1, with a wrong key, with a damaged signature tail; writer: frames emitted by keyed "
-                       "streamwriter.Writer and frame.Writer.WriteMessage verified by SHA-256 in TLA+; node links are covered by the "
-                       "node engine (C09/C11 traces); distinct = (tag, length, result kinds)")
+                       "streamwriter.Writer and frame.Writer.WriteMessage verified by SHA-256 in TLA+; a node with OutKey on three channels "
+                       "(application messages, heartbeats, stream requests) with signature, link id and flag judged per wire; distinct = (tag, length, result kinds)")
     ctx.assumptions += ["SHA256.tla is FIPS 180-4 (asserted on three standard vectors)",
                         "completeness (a valid frame is delivered) is only demanded on untampered streams; a tampered frame that is refused is accepted without hashing"]
